@@ -38,9 +38,10 @@ class Baton:
         self.errors = []
         # reach probes
         self.in_generate_code = [False] * n
+        self.in_nonempty_ctx = [False] * n
         self.probe = {"switch_while_2_in_generate_code": 0, "switch_in_context_manager": 0,
                       "switch_in_models_meta": 0, "thread_started_after_other_finished": 0,
-                      "opcode_steps": 0}
+                      "opcode_steps": 0, "switch_while_2_nonempty_mappings": 0, "nonempty_mapping_entered": 0}
 
     # ---- scheduling decisions ------------------------------------------------------------------------------
     def _draw_gap(self):
@@ -57,6 +58,8 @@ class Baton:
             code = frame.f_code
             if sum(self.in_generate_code) >= 2:
                 self.probe["switch_while_2_in_generate_code"] += 1
+            if sum(self.in_nonempty_ctx) >= 2:
+                self.probe["switch_while_2_nonempty_mappings"] += 1
             if code.co_filename == self.opcode_file:
                 self.probe["switch_in_models_meta"] += 1
                 if code.co_name in ("__enter__", "__exit__"):
@@ -107,6 +110,13 @@ class Baton:
                 self.in_generate_code[me] = True
             if fn == opfile:
                 frame.f_trace_opcodes = True
+                if name == "__enter__":
+                    ctx = frame.f_locals.get("self")
+                    self.in_nonempty_ctx[me] = bool(getattr(ctx, "context", None))
+                    if self.in_nonempty_ctx[me]:
+                        self.probe["nonempty_mapping_entered"] += 1
+                elif name == "__exit__":
+                    self.in_nonempty_ctx[me] = False
             if self.replay is None and self.p_target and name in TARGET_FUNCS \
                     and self.rng.random() < self.p_target:
                 self.next_switch = min(self.next_switch, self.step + 1 + self.rng.randrange(3))
@@ -126,6 +136,7 @@ class Baton:
         finally:
             sys.settrace(None)
             self.in_generate_code[me] = False
+            self.in_nonempty_ctx[me] = False
             self.done[me] = True
             others = self._runnable_others(me)
             if others:
